@@ -187,19 +187,19 @@ macro_rules! world_chunk {
                 // blocking reference on the whole buffer
                 let mut cur = std::io::Cursor::new(whole.as_slice());
                 let s = match wow_world_messages::$exp::opcodes::$en::read_unencrypted(&mut cur) {
-                    Ok(m) => { let mut w = Vec::new(); match m.$wsync(&mut w) { Ok(()) => format!("ok:dbg={:016x}:w={:016x}:n={}", fnv(format!("{m:?}").as_bytes()), fnv(&w), cur.position()), Err(e) => format!("werr:{e}") } }
+                    Ok(m) => { let mut w = Vec::new(); match std::panic::catch_unwind(std::panic::AssertUnwindSafe(|| m.$wsync(&mut w))).unwrap_or_else(|_| Err(std::io::Error::new(std::io::ErrorKind::Other, "writer panicked"))) { Ok(()) => format!("ok:dbg={:016x}:w={:016x}:n={}", fnv(format!("{m:?}").as_bytes()), fnv(&w), cur.position()), Err(e) => format!("werr:{e}") } }
                     Err(e) => with_n(fmt_err(&e), cur.position() as usize),
                 };
                 let mut r = ScriptReader::new(steps);
                 let t = match block_on(wow_world_messages::$exp::opcodes::$en::tokio_read_unencrypted(&mut r), budget) {
                     None => "hang".to_string(),
-                    Some(Ok(m)) => { let mut w = ScriptWriter::new(steps); match block_on(m.$wtokio(&mut w), budget) { Some(Ok(())) => format!("ok:dbg={:016x}:w={:016x}:n={}", fnv(format!("{m:?}").as_bytes()), fnv(&w.out), r.delivered), Some(Err(e)) => format!("werr:{e}"), None => "whang".into() } }
+                    Some(Ok(m)) => { let mut w = ScriptWriter::new(steps); match std::panic::catch_unwind(std::panic::AssertUnwindSafe(|| block_on(m.$wtokio(&mut w), budget))).unwrap_or_else(|_| Some(Err(std::io::Error::new(std::io::ErrorKind::Other, "writer panicked")))) { Some(Ok(())) => format!("ok:dbg={:016x}:w={:016x}:n={}", fnv(format!("{m:?}").as_bytes()), fnv(&w.out), r.delivered), Some(Err(e)) => format!("werr:{e}"), None => "whang".into() } }
                     Some(Err(e)) => with_n(fmt_err(&e), r.delivered),
                 };
                 let mut r = ScriptReader::new(steps);
                 let a = match block_on(wow_world_messages::$exp::opcodes::$en::astd_read_unencrypted(&mut r), budget) {
                     None => "hang".to_string(),
-                    Some(Ok(m)) => { let mut w = ScriptWriter::new(steps); match block_on(m.$wastd(&mut w), budget) { Some(Ok(())) => format!("ok:dbg={:016x}:w={:016x}:n={}", fnv(format!("{m:?}").as_bytes()), fnv(&w.out), r.delivered), Some(Err(e)) => format!("werr:{e}"), None => "whang".into() } }
+                    Some(Ok(m)) => { let mut w = ScriptWriter::new(steps); match std::panic::catch_unwind(std::panic::AssertUnwindSafe(|| block_on(m.$wastd(&mut w), budget))).unwrap_or_else(|_| Some(Err(std::io::Error::new(std::io::ErrorKind::Other, "writer panicked")))) { Some(Ok(())) => format!("ok:dbg={:016x}:w={:016x}:n={}", fnv(format!("{m:?}").as_bytes()), fnv(&w.out), r.delivered), Some(Err(e)) => format!("werr:{e}"), None => "whang".into() } }
                     Some(Err(e)) => with_n(fmt_err(&e), r.delivered),
                 };
                 (s, t, a)
